@@ -45,8 +45,10 @@ def suite(wt):
 
 
 def one(seed_dir, n):
-    prop = os.path.basename(seed_dir.rstrip('/')).split('_')[1]
-    name = '%s_%d' % (prop, n)
+    base = os.path.basename(seed_dir.rstrip('/'))
+    prop = base.split('_')[1]
+    rnd = int(base.split('_')[0].replace('seed', '') or 1)
+    name = '%s_%d' % (prop, n + 2 * (rnd - 1))
     diff = os.path.join(seed_dir, 'mutant%d.diff' % n)
     demo = os.path.join(seed_dir, 'demo%d.py' % n)
     notes = os.path.join(seed_dir, 'notes%d.md' % n)
